@@ -12,14 +12,14 @@ for d in sorted(glob.glob('/verif/seeded/*')):
         rp = r.get('replay') or {}
         nfi = any('no-failing' in l for l in r.get('lines', []))
         if r['exit'] == 0: res = 'exit 0 (missed)'
-        elif rp.get('kind') == 'propfail': res = 'PROPFAIL `' + str(rp.get('input'))[:70].replace('|', '/') + '`'
+        elif rp.get('kind') == 'propfail': res = 'PROPFAIL `' + str(rp.get('input'))[:48].replace('|', '/') + '`'
         elif nfi: res = 'no-failing-input-found (' + str(rp.get('kind')) + ')'
         else: res = 'exit %s' % r['exit']
         cells.append(f"{c}: {res}")
-    summ = (m.get('summary') or '')[:150].replace('\n', ' ').replace('|', '/')
+    summ = (m.get('summary') or '')[:120].replace('\n', ' ').replace('|', '/')
     needs = (m.get('needs') or m.get('observable_difference') or '')
     if isinstance(needs, (dict, list)): needs = json.dumps(needs)
-    needs = needs[:110].replace('\n', ' ').replace('|', '/')
+    needs = needs[:90].replace('\n', ' ').replace('|', '/')
     rows[m.get('round', 1)].append(f"| {name} | {summ} | {needs} | {'; '.join(cells)} |")
 for rnd in (1, 2, 3):
     if not rows[rnd]: continue
